@@ -214,6 +214,7 @@ ORDER_MENU = [
     dict(sel=2, side="BACK", ot="LOC", liab=3.0, price=2.0),
     dict(sel=3, side="BACK", price=5.0, size=2.0),
     dict(sel=1, side="BACK", price=2.0, size=8.0),  # 5 @ 2.0 at once, the rest filled passively after the removal
+    dict(sel=1, side="BACK", price=1.9, size=12.0),  # sweeps both levels (10), 2 rest - a full-match client tops them up at 1.9
 ]
 MARKETS = {
     "WIN": dict(market_type="WIN", nwin=1, results=[{1: "WINNER", 2: "LOSER", 3: "LOSER"}, {1: "LOSER", 2: "WINNER", 3: "LOSER"}, {1: "WINNER", 2: "WINNER", 3: "LOSER"}, {1: "WINNER", 2: "WINNER", 3: "WINNER"}]),
@@ -223,7 +224,8 @@ MARKETS = {
 
 
 def _e2e_one(args):
-    mkey, order_idx, ri, removal, nclients, rate = args
+    mkey, order_idx, ri, removal, nclients, rate = args[:6]
+    full_match = len(args) > 6 and bool(args[6])  # clients that force-match every successful placement in full
     M = MARKETS[mkey]
     spec = simx.MarketSpec(market_type=M["market_type"], nwin=M["nwin"], ew=M.get("ew"), sels=((1, 0), (2, 0), (3, 0)), book0=BOOK)
     result = dict(M["results"][ri])
@@ -243,7 +245,7 @@ def _e2e_one(args):
             # the resting order is replaced to a price that matches: the replacement belongs to the same client
             script[(0, 1)] = [["R", 0, 2.0]]
         strategies.append(dict(script=script, client=c, kw=dict(max_order_exposure=None, max_selection_exposure=None, max_live_trade_count=100), name="S%d" % c))
-    ck = {i: dict(commission_base=rate) for i in range(nclients)}
+    ck = {i: dict(commission_base=rate, simulated_full_match=full_match) for i in range(nclients)}
     w = simx.SimWorld([(spec, ticks)], strategies, n_clients=nclients, client_kw=ck).run()
     out = []
     counts = {"clause:C08.a": 0, "clause:C08.c": 0, "e2e_matched_orders": 0, "e2e_sp_fills": 0, "e2e_reduced_prices": 0}
@@ -402,6 +404,12 @@ def run(tier):
                         continue
                     for oset in order_sets:
                         jobs.append((mkey, oset, ri, removal, nclients, rate))
+    # full-match clients: an order priced through the book gets the available part at the better price and the rest
+    # at its own price - settlement follows the fills all the same
+    for mkey in ("WIN", "PLACE"):
+        for ri in range(len(MARKETS[mkey]["results"])):
+            for oset in [c for k in (1, 2) for c in itertools.combinations((0, 1, 3, 9, 10), k)]:
+                jobs.append((mkey, oset, ri, None, 1, 0.05, True))
     for r in core.pmap(_e2e_one, jobs):
         rep.add_violations(r["violations"])
         rep.merge_counts(r["counts"])
@@ -452,7 +460,7 @@ def _replay(rep):
     case = rep["case"]
     if "args" in case:
         a = case["args"]
-        r = _e2e_one((a[0], tuple(a[1]), a[2], a[3], a[4], a[5]))
+        r = _e2e_one((a[0], tuple(a[1]), a[2], a[3], a[4], a[5]) + ((a[6],) if len(a) > 6 else ()))
     elif "line" in case:
         r = _line_cases()
     else:
